@@ -32,13 +32,27 @@ def observe_dense_edges(spec, N, t0=0.5, T=2.0):
     between consecutive observed nodes (composite Simpson, 400 panels per interval)."""
     from rockit.sampling_method import DenseEdgesGrid
     mult, frac = spec[1:].split('-')
-    grid = DenseEdgesGrid(multiplier=float(mult), edge_frac=float(frac))
-    ocp = Ocp(t0=t0, T=T)
+    # a maximal interval length (never active here) and a free horizon: every interval must get its own bound row
+    from rockit import FreeTime
+    grid = DenseEdgesGrid(multiplier=float(mult), edge_frac=float(frac), max=50.0)
+    ocp = Ocp(t0=t0, T=FreeTime(T))
     x = ocp.state(); u = ocp.control(); ocp.set_der(x, u)
     ocp.add_objective(ocp.integral(u ** 2)); ocp.solver('ipopt')
     ocp.method(MultipleShooting(N=N, M=1, intg='rk', grid=grid))
     ts, _ = quiet(ocp.sample, x, grid='control')
-    n = [(float(v) - t0) / T for v in np.array(ca.evalf(ts)).reshape(-1)]
+    opti = ocp._method.opti
+    tv = np.array(opti.debug.value(ts, opti.initial())).reshape(-1)
+    n = [(float(v) - t0) / T for v in tv]
+    # rows that depend on the horizon variable alone and carry the bound 50: their slopes wrt T are the interval fractions
+    J = ca.Function('J', [opti.x, opti.p], [ca.jacobian(opti.g, opti.x), opti.ubg])
+    x0 = np.array(opti.debug.value(opti.x, opti.initial())).reshape(-1)
+    Jv, ub = J(x0, np.array(opti.debug.value(opti.p, opti.initial())).reshape(-1))
+    Jv = np.array(ca.DM(Jv)); ub = np.array(ub).reshape(-1)
+    slopes = []
+    for i in range(Jv.shape[0]):
+        nz = np.nonzero(Jv[i])[0]
+        if len(nz) == 1 and abs(ub[i] - 50.0) < 1e-9: slopes.append(float(Jv[i, nz[0]]))
+    observe_dense_edges.slopes = slopes
     rho = ca.Function('rho', [grid.t], [grid.density])
     def mass(a, b, m=400):
         xs = np.linspace(a, b, 2 * m + 1)
@@ -57,6 +71,7 @@ def run(pairs, Ns):
                 if d.startswith('E'):
                     n, m = observe_dense_edges(d, N)
                     obs.append({'id': '%s|%s|N%d|%s' % (a, b, N, d), 'density': [], 'N': N, 'mass': [[int(round(v * 4096)), 4096] for v in m],
+                                'bslopes': [[int(round(v * 4096)), 4096] for v in observe_dense_edges.slopes],
                                 'nodes': [[int(round(v * 4096)), 4096] for v in n], 'raw': n})
                     continue
                 n = observe_grid(d, N)
